@@ -1,4 +1,5 @@
 import YModel.Ops
+import YModel.Fusion
 /-! Straight-line programs over the tensor model: what the driver executes and what `eval_wf` (C02)
 quantifies over ("all finite sequences of public operations"). -/
 namespace YModel
@@ -20,6 +21,7 @@ inductive Step (R : Type) where
   | broadcast (d i : Nat) (axis : Nat)
   | applyMask (m i : Nat) (axis : Nat)
   | diag (i : Nat)
+  | fuse (i : Nat) (groups : List (List Nat))
 
 def getVal (vals : List (Tensor R)) (i : Nat) : Except Err (Tensor R) :=
   match vals[i]? with
@@ -42,6 +44,7 @@ def Step.run [Zero R] [Add R] [Mul R] [Neg R] [Conj R] [DecidableEq R] (vals : L
   | .broadcast d i axis => do let dd ← getVal vals d; let a ← getVal vals i; YModel.broadcast dd a axis
   | .applyMask m i axis => do let mm ← getVal vals m; let a ← getVal vals i; YModel.applyMask mm a axis
   | .diag i => do let a ← getVal vals i; YModel.diag a
+  | .fuse i groups => do let a ← getVal vals i; YModel.fuseHard a groups
 
 /-- run a program: every step appends its result to the list of values; the first rejected step aborts -/
 def runProg [Zero R] [Add R] [Mul R] [Neg R] [Conj R] [DecidableEq R] (vals : List (Tensor R)) : List (Step R) → Except Err (List (Tensor R))
